@@ -59,6 +59,7 @@ struct Opt {
 	bool heavy = true;		 // per-vertex arrays, weights
 	bool reachable_only = false; // only nodes / shapes reachable from the root (what a pruning save keeps)
 	bool hash_only = false;		 // do not render text, only hash what the queries return
+	bool derived_blocks = true;	 // block tree and Oblivion binary tangent data (blocks a save derives from the shapes)
 	bool lazy_getters = true;	 // include getters that fill caches / triangulate partition strips (GetShapePartitions)
 	size_t max_items = 1u << 20;
 };
@@ -134,7 +135,7 @@ inline Out shape_out(NifFile& nif, NiShape* shape, const Opt& opt) {
 	{
 		std::vector<Vector3> tg, bt;
 		auto bin = nif.GetBinaryTangentData(shape, &tg, &bt);
-		if (bin) { o += " bintangents="; u(o, tg.size()); u(o, bt.size()); o += "\n"; }
+		if (bin && opt.derived_blocks) { o += " bintangents="; u(o, tg.size()); u(o, bt.size()); o += "\n"; }
 	}
 	// skin
 	step("GetShapeBoneList");
@@ -266,8 +267,9 @@ inline std::string model_text(NifFile& nif, const Opt& opt = Opt()) {
 	{
 		std::vector<NiObject*> tree;
 		nif.GetTree(tree);
-		o += "tree="; u(o, tree.size());
-		if (opt.index_free) {
+		if (opt.derived_blocks) { o += "tree="; u(o, tree.size()); }
+		if (!opt.derived_blocks) {}
+		else if (opt.index_free) {
 			// order-free: multiset of type names
 			std::vector<std::string> names;
 			for (auto t : tree) names.push_back(t->GetBlockName());
